@@ -189,6 +189,14 @@ theorem type_switch_as_modelled :
     (∀ fixed w op r, bitmapBinop fixed w op r .nonDuplex = some r) := by
   refine ⟨by decide, fun _ => rfl, fun _ _ => rfl, rfl, rfl, fun _ _ _ _ => rfl⟩
 
+/-- **`snapshotOperand` hands out private copies only** (regenerated from lock.go): its body is one type switch; the
+case of each wrapper type is exactly `Lock(); defer Unlock(); return typedOther.provider.Clone()` and has NO other return
+path — in particular none that returns the wrapper's live inner provider for some content (an empty operand included);
+only a provider that is not a wrapper is returned as it is. -/
+theorem snapshot_returns_private_copy :
+    Generated.C13.snapshotCases = Facts.expectedSnapshotCases ∧ Generated.C13.snapshotDefault = "other" ∧
+    Generated.C13.snapshotBodyStmts = 1 := by decide
+
 /-- **API completeness.** Every method of the `Duplex` interface is an operation of the model; every exact provider
 (`bitmap32`, `bitmap64`, `threadSafeDuplex`) implements all of them and has no other method except the listed
 exempt one (`Iterator`); the one-way providers implement exactly `Simplex`; every type of package `cardinality` that
